@@ -935,7 +935,7 @@ def _rand_tree(rng, tips, grid=None):
 
 ME_CONFIGS = {
     # name: m epochs, tips ('serial'|'mixed'|'iso'), rho ('none'|'present'|'one'|'thin' = present + thinning events at boundaries without tips
-    #       |'event_tips' = tips sampled AT one intermediate event|'two_events' = tips sampled at two events), survival, removal
+    #       |'thin_only' = NO sampling at the present, thinning events at every earlier boundary|'event_tips' = tips sampled AT one intermediate event|'two_events' = tips sampled at two events), survival, removal
     "m=1,serial": dict(m=1, tips="serial", rho="none"),
     "m=1,mixed,rho": dict(m=1, tips="mixed", rho="present", survival=True),
     "m=1,iso,rho=1": dict(m=1, tips="iso", rho="one"),
@@ -949,6 +949,10 @@ ME_CONFIGS = {
     "m=8,mixed,thinning": dict(m=8, tips="mixed", rho="thin"),
     "m=2,tips_at_sampling_event": dict(m=2, tips="mixed", rho="event_tips"),
     "m=3,tips_at_two_sampling_events": dict(m=3, tips="mixed", rho="two_events"),
+    # no sampling at the present (tips at height 0 are psi-samples) but thinning events at earlier boundaries
+    "m=2,iso,thinning_only": dict(m=2, tips="iso", rho="thin_only", survival=True),
+    "m=3,iso,thinning_only": dict(m=3, tips="iso", rho="thin_only"),
+    "m=3,mixed,thinning_only": dict(m=3, tips="mixed", rho="thin_only", survival=True),
     "m=1,removal": dict(m=1, tips="mixed", rho="present", removal=0.4, survival=True),
     "m=2,removal": dict(m=2, tips="serial", rho="none", removal=0.4),
     "m=3,removal=1": dict(m=3, tips="mixed", rho="present", removal=1.0),
@@ -1002,6 +1006,9 @@ def _me_case(name, trial, seed, twin=None):
     if rhomode == "thin":
         for j in range(1, m):
             rho[j] = rng.choice([0.0, 0.2, 0.5])
+    if rhomode == "thin_only":
+        for j in range(1, m):
+            rho[j] = rng.choice([0.2, 0.5])
     for e_ in ev:
         rho[b.index(e_)] = rng.choice([0.25, 0.6])
     if 0.0 in tips[1:] or tips[0] == 0.0:
